@@ -24,7 +24,7 @@ LOCK_TRUSTED = ["modelled, not verified: Go select / channel / sync/atomic seman
 LOCK_RULE_RT = (" PLUS real-time scenarios on the real in-memory storage with lease 300 ms (thorough: more phases): holder holds 6 lease periods with a contender of another provider waiting {steady; a transient error injected on the k-th renewal CasByVersion, k=1..3 (thorough ..6)}; holder death at two phases of the renewal cycle (its renewals stop reaching the storage) -> contender must acquire within 3 leases; Unlock racing a due renewal -> at most one more renewal call, none successful; a failing scenario is re-run twice alone with a doubled lease and reported only if it fails both times (timing-flake filter)")
 LOCK_EXPL = {"C01": "C01.mutex (any N, any sharing, any interleaving, unbounded faults), holder_owns_record, locker_serialised, counter_exact; mutex_needs_timely_unlock is the kernel-checked KF-1 history",
              "C04": "C04.no_residue, token_exact, record_has_live_owner, no_deadlock, handoff, after_shutdown_no_acquire, fail_path_restores on fault-free runs; C04.service_reachable / everyone_can_be_served (AG EF served: from EVERY reachable state every acquiring caller with a live context can still be served by a finite continuation; all of them one after the other)",
-             "C05": "C05Timed.lease_kept (timed model over the lease constants REGENERATED from kvlock.go: renewal at L/2, retry at L/8, deadline from a fresh clock reading inside the retry loop: the record never lapses while held, for any hold duration and up to m consecutive transient failures under the margin), default_config_tolerates (10 s lease, 500 ms lateness, 2 failures), default_margin_tight, stale_deadline_lapses (negative), code_constants; C05.lease_chain_alive_partial (renewal chain never dies while held, under the stated timing assumption), renewal_dies_after_unlock_partial, dead_holder_released, lease_margin; reply_lost_breaks_chain = KF-3; the full-strength statements lease_chain_alive_full / renewal_dies_after_unlock_full are REFUTED in Lean (early-fire race; unbounded leftovers in an untimed model)"}
+             "C05": "C05Timed.lease_kept (timed model over the lease constants REGENERATED from kvlock.go: renewal at L/2, retry at L/8, deadline from a fresh clock reading inside the retry loop: the record never lapses while held, for any hold duration and up to m consecutive transient failures under the margin), default_config_tolerates (10 s lease, 500 ms lateness, 2 failures), default_margin_tight, stale_deadline_lapses (negative), code_constants; C05.lease_chain_alive_partial (renewal chain never dies while held, under the stated timing assumption), renewal_dies_after_unlock_partial, dead_holder_released, lease_margin; reply_lost_breaks_chain = KF-3; the full-strength statements lease_chain_alive_full / renewal_dies_after_unlock_full are REFUTED in Lean (early-fire race; unbounded leftovers in an untimed model); C05Cell (Model/LeaseCell: storage answers arrive arbitrarily late, Unlock + Lock in between, other providers): chain_alive_late_answers and chain_alive_current_errors (renewal chain alive while held), held_has_record, chain_alive_refuted (stale renewal + two transient errors: negative), swap_variant_breaks_chain (negative: the seeded Swap variant), code_skeleton (decide over the order of future/timer/storage operations REGENERATED from kvlock.go)"}
 
 PROPS = {
     "C14": dict(
@@ -39,7 +39,7 @@ PROPS = {
         lean=["GolibsVerif.Props.C18"],
         seq=[dict(comp="mixer")],
         rule="cases = (selector, input1, input2, resettable flags, call pattern): all pairs of sequences of length <= 3 (quick) / 4 (thorough) over {1,2,3} x selectors {<,<=,const true,const false,(>=,parity)} x drain patterns; every HasNext/Next/Reset pattern to depth 6/8 on 5 small input pairs; resettable/non-resettable combinations; random inputs up to 40+40 elements; non-trivial = both inputs non-empty with a tie under the selector, or a Reset in mid-stream; distinct = hash of (header, op list)",
-        assumptions=["input iterators honour the Iterator contract (list-backed: iterable.WrapIntSlice, optionally with Reset hidden)"],
+        assumptions=["input iterators honour the Iterator contract; the model's inputs are lists (iterable.WrapIntSlice, optionally with Reset hidden); inputs whose last element vanishes between HasNext and Next are covered by a Go-side shadow run that must answer every call alike"],
         trusted=["modelled, not verified: Go interface dispatch / type assertion to golibs.Reseter"],
         explanation="C18.step_refines lifted to every call pattern (pattern_independent), output_eq_merge, is_interleaving, sorted_merge, reset_restarts; correspondence ties Mixer.Mx to container/iterable/mixer.go",
     ),
@@ -153,7 +153,7 @@ PROPS = {
     ),
     "C05": dict(
         generated=True,   # Generated/LockConsts.lean: renewal / retry divisors, default lease, where the deadline is computed
-        lean=["GolibsVerif.Props.C05", "GolibsVerif.Props.C05Timed", "GolibsVerif.Props.C01Exec"],
+        lean=["GolibsVerif.Props.C05", "GolibsVerif.Props.C05Timed", "GolibsVerif.Props.C05Cell", "GolibsVerif.Props.C01Exec"],
         seq=[],
         go_cmds=("seq", "conc"),
         conc=[dict(comp="lock", driver="locktrace", args=["-focus", "C05"],
@@ -176,6 +176,12 @@ PROPS = {
     "C06": dict(
         lean=["GolibsVerif.Props.C06"],
         seq=[dict(comp="kvinmem", driver="kv", args=["-focus", "C06"]), dict(comp="kvredis", driver="kv", args=["-focus", "C06"])],
+        go_cmds=("seq", "conc"),
+        # a BLOCKED WaitForVersionChange must see an expiry like a Delete (released with ErrNotExist): the waiter
+        # harness of C07 (virtual clock, harness-owned expiry timers); what C06 talks about = its expiry monitors
+        conc=[dict(comp="waiters", driver="waittrace",
+                   decisive=lambda d: d["op"].startswith("mon C07") and "expir" in d["detail"],
+                   ignore=lambda d: not (d["op"].startswith("mon C07") and "expir" in d["detail"]))],
         rule="same histories as C03 (without the leading-'/' stream); the first block forces EVERY operation kind (Get, GetMany, CasByVersion, Delete, Create, ListKeys, WaitForVersionChange, Put, PutMany) to be the first one to touch a key whose short / long / absent expiry has or has not passed; non-trivial = first op on an expired key, or read after write; distinct by hash of the op list",
         assumptions=["as C03"],
         trusted=["as C03"],
@@ -275,7 +281,7 @@ MANIFEST_TEXT.update({
     "C20": _t("Lean proof on a lexical path / small file-system model that UnzipToFolder creates files and directories only inside the destination for ANY archive, and that ZipFolder∘UnzipToFolder reproduces exactly the selected files (path and content); tied to files.go by a differential run on a sandboxed real file system (hostile archives, random trees, all filter/recursive/spelling combinations) with Go-side confinement and round-trip monitors", "Lean 4 proofs over a path/file-system model + model/code correspondence on the real file system"),
     "C01": _t("Lean proof of mutual exclusion for the N-process transition system of kvlock.go (any number of goroutines/Lockers/providers, every interleaving at storage-call granularity, cancellation anywhere, unbounded request-lost/reply-lost faults) under the explicit lease assumption; tied to the code by trace refinement: real kvsLock goroutines run under a controlled scheduler and every recorded trace is replayed through the executable model, which is proved sound w.r.t. the transition relation (C01Exec)", "Lean 4 inductive-invariant proof over an N-process transition system + trace refinement of real executions"),
     "C04": _t("Lean proofs on fault-free runs: no residue at quiescence, token/counter exact, no orphan record, deadlock freedom (some caller inside a call can always move when nobody holds), hand-off enabledness, no acquisition after shutdown, failure paths restore the Locker, and the branching-time core of liveness (service_reachable / everyone_can_be_served: no reachable state cuts an acquiring caller off — a finite continuation serves it, and all acquiring callers one after the other); tie as C01 plus Go-side residue / stuck / lease-loss monitors. Inevitable service additionally needs a fair scheduler (not expressible over the untimed step relation; not mechanised)", "Lean 4 invariant, enabledness and reachability (AG EF) proofs + trace refinement of real executions"),
-    "C05": _t("Lean proofs: a TIMED model of the lease over constants regenerated from kvlock.go on every run (renewal and retry divisors, default lease, where the deadline is computed) — the record never lapses while held under the timing margin, the default configuration tolerates two consecutive transient failures at 500 ms lateness, a deadline computed before the wait lapses (negative); the renewal chain stays alive while the lock is held (under the stated timing assumption; the unrestricted statement is refuted in Lean), leftovers after Unlock are stale and die at their next CAS, a lapsed record lets a waiter acquire, timing margin arithmetic; tie as C01 with scheduler-driven timer firing and a Go-side chain-alive monitor. Real-time behaviour (timers, latency) is runtime and not proved", "Lean 4 invariant proofs (partial: timing assumption explicit) + trace refinement of real executions"),
+    "C05": _t("Lean proofs: a TIMED model of the lease over constants regenerated from kvlock.go on every run (renewal and retry divisors, default lease, where the deadline is computed) — the record never lapses while held under the timing margin, the default configuration tolerates two consecutive transient failures at 500 ms lateness, a deadline computed before the wait lapses (negative); the renewal chain stays alive while the lock is held (under the stated timing assumption; the unrestricted statement is refuted in Lean), leftovers after Unlock are stale and die at their next CAS; in a second model where storage answers arrive arbitrarily late (Unlock and re-Lock in between) the chain stays alive for the code's CompareAndSwap discipline and provably dies for a Swap variant, the order of operations on l.future being regenerated from kvlock.go; a lapsed record lets a waiter acquire, timing margin arithmetic; tie as C01 with scheduler-driven timer firing and a Go-side chain-alive monitor. Real-time behaviour (timers, latency) is runtime and not proved", "Lean 4 invariant proofs (partial: timing assumption explicit) + trace refinement of real executions"),
 })
 
 NOT_CLAIMED = {
